@@ -508,6 +508,16 @@ pub fn run_concurrent(sc: &Scenario) -> RunReport {
                 return rep;
             }
         }
+        // operations whose result does not depend on the history (consistent-snapshot reads, pure
+        // blocks): the result is what it is under every interleaving
+        for h in &hist {
+            if let OpKind::Valid(_, Some(want)) = &h.op.kind {
+                if !obs_matches(&Expect::Value(Val::Int(*want)), &h.obs) {
+                    rep.violation = Some(("result-mismatch".into(), format!("T{} `{}` yielded {} under this interleaving; it yields {want} whatever the other threads do", h.thread, h.op.src(), obs_text(&h.obs))));
+                    return rep;
+                }
+            }
+        }
         // oracle T + final contents are part of the history (a final read of every cell after all joins)
         if let Some(v) = check_world(&interp, None, &[]) {
             rep.violation = Some(v);
@@ -737,6 +747,11 @@ pub const INDEP_TEMPLATES: &[&str] = &[
     "it := [(x: int) -> int|float { return x }, 7]~; it(); it(); (c, d) := it(); c",
     "it := [([1, \"s\"], 2), \"z\", (x: int|string) -> [int|string] { return [x] }]~; it(); it(); it(); (c, d) := it(); c",
     "r := ([1, \"a\", 2.5, [1, \"b\"]]~ ? int|[int|string]) $]; std.len(r)",
+    // reductions over different element kinds at the same time
+    "a := [1, 2, 3]~ $+; b := []~ ? int $+; (a, b)",
+    "a := [1.5, 2.5]~ $+; b := [0.5]~ $*; (a, b)",
+    "a := [\"x\", \"y\"]~ $+; a",
+    "a := [2, 3]~ $*; b := [true, false]~ $&&; c := [1, 2]~ $|; (a, b, c)",
 ];
 
 fn run_shared_code(sc: &Scenario, mut rep: RunReport) -> RunReport {
